@@ -120,12 +120,12 @@ def oracle_bin(ctx, n, mode, param, steps, final, log, scen, rep):
     return None
 
 
-def std_case(ctx, caps, faults):
+def std_case(ctx, caps, faults, pass_=None):
     scen = setup(ctx, {'caps': caps, 'query_faults': faults, 'sleep': 0.8})
     path = os.path.join(ctx.tmp, 'tc.cc')
     with open(path, 'w') as f:
         f.write(''.join(f'I{i}\n' for i in range(8)))
-    pass_ = mk_pass('bin', None)
+    pass_ = pass_ or mk_pass('bin', None)
     st = pass_.new(path, None)
     counts = []
     for s in STDS:
@@ -235,6 +235,18 @@ def explore(ctx):
         if why:
             ctx.violation('best-standard', why, {'kind': 'std', 'caps': caps, 'faults': faults})
         best_cases.append(('[' + '; '.join(f'({i}, ({c})%Z)' for i, c in enumerate(counts)) + ']', [1, chosen, counts[chosen]] if chosen >= 0 else [-1, -1]))
+    # the same pass object started again on an input whose best standard differs (next file of a multi-file run,
+    # the same file after other passes): the standard must be detected afresh by every new()
+    for _ in range(3 if ctx.quick() else 20):
+        shared = mk_pass('bin', None)
+        for _round in range(2):
+            top = rnd.choice(STDS)
+            caps = {s: (8 if s == top else rnd.choice([0, 2, 5])) for s in STDS}
+            counts, chosen, why = std_case(ctx, caps, {}, pass_=shared)
+            ctx.evaluations += 1
+            ctx.count('std-detection:reused-pass-object')
+            if why:
+                ctx.violation('best-standard', 'pass object used for a second input: ' + why, {'kind': 'std', 'caps': caps, 'faults': {}})
     ctx.sample({'mono_case': mono[len(mono) // 2][0], 'range_log': mono[len(mono) // 2][1][:30]})
     ctx.sample({'best_std_case': best_cases[0][0], 'chosen': best_cases[0][1]})
     for nm, fn, cs in (('c15m', 'mono_run', mono), ('c15s', 'seq_run', seq), ('c15r', 'result_case', rc_cases), ('c15b', 'best_case', best_cases)):
